@@ -345,3 +345,53 @@ func ZipClose(zw *zip.Writer) error {
 	}
 	return zw.Close()
 }
+
+// ---- write-level and close-level fault points ----------------------------------------
+//
+// The writer a package is written through (the argument of zip.NewWriter) is wrapped, so that one Write
+// call can be made to fail - once, with the calls after it succeeding again, which the kernel-level
+// file-size limit cannot do. Closing an *os.File can be made to report an error the way a file system
+// with delayed allocation, a quota or a network file system does: the data written last never reached
+// the medium. Neither is a yield point of the scheduler (schedules are unchanged by them).
+
+// WriteFault, when set, is asked before every Write of n bytes on a wrapped writer; it returns how many
+// bytes are passed on to the real writer and the error the call returns (a nil error lets the call proceed).
+var WriteFault func(n int) (int, error)
+
+type faultWriter struct{ w io.Writer }
+
+// Writer wraps the writer a package is written to.
+func Writer(w io.Writer) io.Writer { return &faultWriter{w} }
+
+func (x *faultWriter) Write(p []byte) (int, error) {
+	if f := WriteFault; f != nil {
+		if k, err := f(len(p)); err != nil {
+			if k > len(p) {
+				k = len(p)
+			}
+			if k > 0 {
+				if m, werr := x.w.Write(p[:k]); werr != nil {
+					return m, werr
+				}
+			}
+			return k, err
+		}
+	}
+	return x.w.Write(p)
+}
+
+// FileClose closes f. An injected failure means: close(2) reports that delayed writes were lost, and the
+// tail of the file is indeed gone.
+func FileClose(f *os.File) error {
+	name := f.Name()
+	if flt := IOFault; flt != nil {
+		if err := flt("file-close", name); err != nil {
+			if st, e := f.Stat(); e == nil && st.Mode().IsRegular() && st.Size() > 0 {
+				_ = f.Truncate(st.Size() - (st.Size()+3)/4)
+			}
+			_ = f.Close()
+			return &os.PathError{Op: "close", Path: name, Err: err}
+		}
+	}
+	return f.Close()
+}
